@@ -294,6 +294,10 @@ SIGNATURES = {"uf-bool-argument-model-error": sig_boolarg,
               "ghost-vars-theory-combination-wrong-sat": lambda c, r: sig_wrong_sat(sigs.ghost_combination_wrong_sat)(c, r) or (
                   sigs.is_ghost(c) and str((r.detail or {}).get("what", "")).split(":")[0] in (
                       "model-falsifies-assertion", "value-differs-from-model", "assignment-differs-from-model")),
+              "non-incremental-second-check-sat": lambda c, r: str((r.detail or {}).get("what", "")).startswith("model-of-unsat-set") and
+              sigs.nonincr_second_check(c, (r.detail or {}).get("cmd_index", 0) - 1),
+              "lookahead-model-with-pushed-levels": lambda c, r: sigs.is_lookahead(c) and sigs.max_depth_before(c, (r.detail or {}).get("cmd_index")) >= 1 and str(
+                  (r.detail or {}).get("what", "")).split(":")[0] in ("model-falsifies-assertion", "value-differs-from-model", "assignment-differs-from-model"),
               "lookahead-model-incomplete": lambda c, r: sigs.is_lookahead(c) and "Bool)" in str((r.detail or {}).get("model", "")) and str(
                   (r.detail or {}).get("what", "")).split(":")[0] in ("model-falsifies-assertion", "value-differs-from-model", "assignment-differs-from-model"),
               "lookahead-three-assertion-levels": lambda c, r: sigs.lookahead_deep(c, (r.detail or {}).get("cmd_index")) and str(
